@@ -107,6 +107,8 @@ var programs = []prog{
 	// an injected Lookup failure of the hook / delete / paused-retry consumers is a transient MISS (ErrRecordNotFound from a
 	// replica that does not have the run yet): like any lookup error it must be retried, never acknowledged
 	mkProg("hooks-lookup-miss", "S:1:R,1,2:2:0:0:0 S:2:R,1,3:3:0:0:0 H:5:0 D:0 O:nf=1"),
+	// a step function whose error wraps context.Canceled (code 99) while the role is held: an ordinary failure, back-off applies
+	mkProg("step-error-wraps-cancel", "S:1:F,2,99,R,1,2:2:0:0:0 S:2:R,1,3:3:0:0:0 O:bo=50"),
 	// the delete consumer with a custom delete function that fails twice before it succeeds: the request is handled again
 	mkProg("delete-fails-twice", "S:1:R,1,2:2:0:0:0 S:2:R,1,3:3:0:0:0 H:5:0 D:4"),
 	mkProg("lagged", "S:1:R,1,2:2:0:0:30 S:2:R,1,3:3:0:0:0 H:5:0"),
@@ -297,6 +299,7 @@ func genEngine(p *params, emit func(string, bool)) {
 	case "C08":
 		genControl(p, prop, emit)
 		genStaleReads(p, emit)
+		genStaleHandles(p, emit)
 	case "C20":
 		genSchedule(p, emit)
 	case "C04":
@@ -304,6 +307,7 @@ func genEngine(p *params, emit func(string, bool)) {
 		genStaleReads(p, emit)
 	case "C09":
 		genTriggers(p, emit)
+		genSchedManual(p, emit)
 	case "C10":
 		genConnectors(p, emit)
 	case "C12":
@@ -369,6 +373,11 @@ func genConnectors(p *params, emit func(string, bool)) {
 func genFaults(p *params, emit func(string, bool), frac float64) {
 	r := p.rng
 	for _, pr := range programs {
+		if vp := os.Getenv("VERIF_PROP"); pr.name == "step-error-wraps-cancel" && vp != "C07" && vp != "C11" {
+			// a failed Trigger removes a run that, in the failure-free twin, sits ahead in the same consumer and holds the
+			// other run back through its own failures and back-offs: the faulty history gets AHEAD of its twin
+			continue
+		}
 		if pr.name == "delete-fails-twice" && os.Getenv("VERIF_PROP") != "C07" {
 			// its base history issues DeleteData at fixed positions; a fault that delays the runs makes those requests come
 			// too early (rejected), so the history is not comparable with its failure-free twin (C01's final-state clause)
@@ -391,9 +400,13 @@ func genFaults(p *params, emit func(string, bool), frac float64) {
 			base = append(base, connEvents(pr, 3)...)
 			base = append(base, pr.rounds(2)...)
 			base = append(base, connEvents(pr, 5)[3:]...)
-		case "backoff":
+		case "backoff", "step-error-wraps-cancel":
 			base = append(base, pr.rounds(3)...)
 			base = append(base, adv(50))
+			if pr.name == "step-error-wraps-cancel" {
+				base = append(base, pr.rounds(2)...)
+				base = append(base, adv(50))
+			}
 		case "delete-fails-twice":
 			base = append(base, pr.rounds(4)...)
 			base = append(base, "ct:1:3", "ct:2:3")
@@ -499,6 +512,29 @@ func genControl(p *params, prop string, emit func(string, bool)) {
 				return strings.HasPrefix(op, "st:") && (strings.Contains(op, "/h") || strings.HasSuffix(op, "/d") || strings.HasSuffix(op, "/r")) &&
 					(kind == "LK" || kind == "AK" || kind == "ST")
 			})
+		}
+		// late-joining hook consumers: the hook processes get their roles only after the run has been paused, resumed and
+		// completed; they start from the beginning of the stream and catch up on every entry
+		{
+			noHooks := func(ops []string) []string {
+				var r []string
+				for _, o := range ops {
+					if !strings.Contains(o, "/h") {
+						r = append(r, o)
+					}
+				}
+				return r
+			}
+			l := []string{"tr:1:0:4"}
+			l = append(l, noHooks(pr.rounds(2))...)
+			l = append(l, "ct:1:0")
+			l = append(l, noHooks(pr.rounds(2))...)
+			l = append(l, "ct:1:1")
+			l = append(l, noHooks(pr.rounds(2))...)
+			l = append(l, "cb:1:2", adv(100))
+			l = append(l, noHooks(pr.rounds(3))...)
+			l = append(l, pr.rounds(5)...)
+			emit(scenario(pr, l), true)
 		}
 		ctls := []string{"ct:1:0", "ct:1:1", "ct:1:2", "ct:1:3", "ui:1:0", "ui:1:1", "ui:1:2", "ui:1:3", "cb:1:2", "tr:1:0:6"}
 		// one RunStateController used for two or three consecutive changes (ctr = re-use the controller of the previous ct)
@@ -678,6 +714,24 @@ func genStaleReads(p *params, emit func(string, bool)) {
 	}
 }
 
+// a pause / cancel written through a STALE HANDLE (a controller made from an earlier read of the run: the lookup of the control
+// operation is answered by the previous version) while the announcement of the run's latest move is still undelivered: the
+// stale write has the version that announcement carries, so only the stopped-run check keeps the step function away
+func genStaleHandles(p *params, emit func(string, bool)) {
+	pr := mkProg("stale-handle", "S:1:R,1,2:2:0:0:0 S:2:R,1,3:3:0:0:0 S:3:R,1,4:4:0:0:0 O:retry=-1")
+	for _, ctl := range []string{"ct:1:0", "ct:1:2", "ui:1:0"} {
+		for _, moved := range []int{1, 2} {
+			ops := append(pr.rounds(1), "tr:1:0:4", "st:1/o") // every process has its role and receiver before the run starts
+			for st := 1; st <= moved; st++ {
+				ops = append(ops, fmt.Sprintf("st:1/s%d.1.1", st), "st:1/o")
+			}
+			ops = append(ops, ctl+"@LK.0.sr")
+			ops = append(ops, pr.rounds(4)...)
+			emit(scenario(pr, ops), true)
+		}
+	}
+}
+
 func genTriggers(p *params, emit func(string, bool)) {
 	r := p.rng
 	pr := mkProg("trig", "S:1:R,1,2:2:0:0:0 C:2:R,1,3:3 S:3:R,1,4:4:0:0:0 D:0")
@@ -840,6 +894,36 @@ func genReturns(p *params, emit func(string, bool)) {
 }
 
 // schedules: cron specifications x clock advance sequences x filter answers x completions x lease losses
+// a run of the scheduled foreign ID triggered BY HAND while the scheduler waits for its next tick and still unfinished when
+// the tick comes: the scheduled trigger is refused, whatever the scheduler saw before it waited (C09 through Schedule)
+func genSchedManualOne(specID int, period int64, emit func(string, bool)) {
+	sec := int64(1000000000)
+	pr := mkProg("sched", fmt.Sprintf("S:1:R,1,2:2:0:0:0 Z:5:%d:9:0 Z:6:%d:3:0", specID, specID))
+	round := func() []string { return append(pr.round(), "st:1/c5", "st:1/c6") }
+	rounds := func(n int) []string {
+		var o []string
+		for i := 0; i < n; i++ {
+			o = append(o, round()...)
+		}
+		return o
+	}
+	ops := []string{"sched:1:5", "sched:1:6"}
+	ops = append(ops, rounds(2)...)
+	ops = append(ops, fmt.Sprintf("adv:%d", period*sec))
+	ops = append(ops, rounds(3)...)
+	ops = append(ops, "tr:5:0:3")
+	ops = append(ops, fmt.Sprintf("adv:%d", period*sec))
+	ops = append(ops, "st:1/c5", "st:1/c6", "st:1/c5", "st:1/c6")
+	ops = append(ops, rounds(3)...)
+	emit(scenario(pr, ops), true)
+}
+
+func genSchedManual(p *params, emit func(string, bool)) {
+	for _, sp := range [][2]int64{{1, 60}, {2, 900}, {3, 3600}} {
+		genSchedManualOne(int(sp[0]), sp[1], emit)
+	}
+}
+
 func genSchedule(p *params, emit func(string, bool)) {
 	r := p.rng
 	sec := int64(1000000000)
@@ -880,6 +964,9 @@ func genSchedule(p *params, emit func(string, bool)) {
 			}
 			if sp.id == 1 || sp.id == 3 || p.thorough() {
 				rec(nil, depth)
+			}
+			if filt == 0 {
+				genSchedManualOne(sp.id, sp.period, emit)
 			}
 			// a run that stays unfinished (paused) across ticks, then is cancelled; lease losses; crashes; an older run
 			for i := 0; i < p.pick(25, 400); i++ {
